@@ -141,6 +141,8 @@ pub fn run(args: &Args, model: &str) -> ! {
                            "message": panic_message(info), "location": loc, "events": events()})
                 );
             }
+            // real-shm mode: do not leave the object behind
+            let _ = std::fs::remove_file(format!("/dev/shm/loomck-{}", std::process::id()));
             default_hook(info);
         }));
     }
